@@ -132,6 +132,10 @@ Definition specials (ps : list name) (body : list stmt) : list name :=
   filter (fun n => memb n (found_specials body) && negb (memb n ps)) [CALLER; KWARGS; VARARGS].
 
 Section Gen.
+  (* which template names are pure ASCII: a call with a keyword name that is not is emitted with all its
+     keywords in a dict unpacked with a double star, like one whose keyword is a Python keyword — no identifier of the
+     generated module is derived from such a keyword *)
+  Variable ascii : name -> bool.
 
   (* il : Frame.in_loop_body;  lf : Frame.loop_frame;  bf : Frame.block_frame.
      A call whose explicit keywords collide with the keywords the generator adds itself is
@@ -140,7 +144,7 @@ Section Gen.
   Definition reserved_free (kws : list name) : bool := negb (memb LOOPVARS kws) && negb (memb BLOCKVARS kws).
   Definition gen_call (fc lf bf : bool) (kws : list name) : res (list py) :=
     if nodupb kws && disjb kws (extras fc lf bf) && reserved_free kws
-    then Ok [PCall (kws ++ extras fc lf bf)] else SyntaxErr.
+    then Ok [PCall (if forallb ascii kws then kws ++ extras fc lf bf else [])] else SyntaxErr.
 
   Fixpoint gen (il lf bf : bool) (s : stmt) {struct s} : res (list py) :=
     let gens := fix gens (il lf bf : bool) (l : list stmt) {struct l} : res (list py) :=
